@@ -19,7 +19,10 @@ RULE = ("(a) messages built from a grammar of nested named, inline (also foregro
         "single-output level (depth <= 4) left normally, by an Exception or by a KeyboardInterrupt / SystemExit (a BaseException "
         "only), with sections taken inside scopes (io.section(): the body runs on a section that starts with the indentation in "
         "force), on ANSI/plain/null formatters, ANSI and plain streams, plain outputs and section outputs; texts include lines of "
-        "white space only (not empty: indented); non-trivial = a message with >= 1 recognised tag / a style with >= 1 code / a "
+        "white space only (not empty: indented); the writes made through the I/O are IO-level statements which the MODEL compiles "
+        "(Model/OutputIO.v); every writer C10's reflection finds on every I/O class is called with a text that ends in no line feed "
+        "and (which stream, ends the line?) is compared with the model's table of the eight IO methods; the method-table cases of "
+        "the line-writing methods also run on BufferedIO, ConsoleIO, NullIO; non-trivial = a message with >= 1 recognised tag / a style with >= 1 code / a "
         "history with an add_style / a program with >= 1 scope and >= 1 write; distinct by request")
 TRUSTED = ["pastel (external library) is modelled by hand in Model/Markup.v from its source; the model is compared with the "
            "installed pastel on every run through clikit's formatters"]
